@@ -19,6 +19,7 @@ import (
 	"sort"
 	"strconv"
 	"strings"
+	"sync"
 	"syscall"
 	"testing"
 	"time"
@@ -163,7 +164,7 @@ func (c cmdCase) op(dir string) map[string]any {
 	if c.Lazy {
 		args = append(args, "-lazy", "-duration", "2s") // the end of the list stops the attack long before; the bound only keeps a run finite
 	} else if c.Stall {
-		args = append(args, "-duration", "500ms", "-timeout", "100ms")
+		args = append(args, "-duration", "1200ms", "-timeout", "100ms")
 	} else {
 		args = append(args, "-duration", "100ms")
 	}
@@ -266,6 +267,7 @@ func TestDrv_E2E(t *testing.T) {
 		n++
 	}
 	var ops []map[string]any
+	var readFrom sync.Map // stalled cases: when the reader of the output pipe started to read (wall clock)
 	for k, c := range cases {
 		d := filepath.Join(dir, fmt.Sprintf("e2e%03d", k))
 		must(os.MkdirAll(d, 0o755))
@@ -273,20 +275,21 @@ func TestDrv_E2E(t *testing.T) {
 			// the output is a named pipe; its reader opens it, does nothing for 400 ms, then copies everything to out.real
 			fifo := filepath.Join(d, "out.bin")
 			must(syscall.Mkfifo(fifo, 0o600))
-			go func(d string) {
+			go func(d string, k int) {
 				f, err := os.Open(fifo)
 				if err != nil {
 					return
 				}
 				defer f.Close()
-				time.Sleep(400 * time.Millisecond)
+				time.Sleep(1000 * time.Millisecond)
+				readFrom.Store(k, time.Now().UnixNano()) // from now on results are taken
 				out, err := os.Create(filepath.Join(d, "out.real"))
 				if err != nil {
 					return
 				}
 				defer out.Close()
 				_, _ = io.Copy(out, f)
-			}(d)
+			}(d, k)
 		} else if k%3 == 1 { // an output file left over from an earlier run, longer than the new output
 			must(os.WriteFile(filepath.Join(d, "out.bin"), bytes.Repeat([]byte("stale output of an earlier run\n"), 40000), 0o644))
 		}
@@ -394,15 +397,13 @@ func TestDrv_E2E(t *testing.T) {
 		if len(qs) > 300 {
 			qs, o["truncated"] = qs[:300], true
 		}
-		early, t0 := 0, int64(-1)
-		for _, q := range qs {
-			if s := q["start"].(int64); t0 < 0 || s < t0 {
-				t0 = s
-			}
-		}
-		for _, q := range qs {
-			if q["start"].(int64) < t0+350000 {
-				early++
+		early := 0 // requests that began while nobody was taking results yet (stalled cases)
+		if v, ok := readFrom.Load(k); ok {
+			began, _ := m["began_unix_ns"].(float64)
+			for _, q := range qs {
+				if int64(began)+q["start"].(int64)*1000 < v.(int64) {
+					early++
+				}
 			}
 		}
 		o["early"] = early
